@@ -92,8 +92,10 @@ async fn run_faulted<const N: usize>(cfg: HCfg, beh: BehaviourJ, dir: std::path:
     let mut hit_any = false;
     let mut snap_mm = Vec::new();
     let mut steps = beh.steps.clone();
-    // the history ends with a restart, so that what the next session serves is compared too
-    steps.push(StepJ { act: ActJ { a: "restart".into(), k: 0, ts: 0, m: 0, f: 1, s: "keep".into() }, ret: res("ok", 0), obs: None });
+    // the history ends with a restart, so that what the next session serves is compared too:
+    // a graceful one, or the storage dropped without close (no index dump: the start-up scans the blob)
+    let graceful = if plan.nth % 2 == 0 { 0 } else { 1 };
+    steps.push(StepJ { act: ActJ { a: "restart".into(), k: 0, ts: 0, m: 0, f: graceful, s: "keep".into() }, ret: res("ok", 0), obs: None });
     let mut quarantined = false;
     for st in steps.iter() {
         if st.act.a == "write" || st.act.a == "delete" { vid += 1; }
@@ -283,9 +285,14 @@ fn cancel_main(cfg: HCfg, nkeys: u64, out_path: String) {
         "lines": 0, "distinct": execs, "steps": 0, "failed": errors, "tool_errors": 0}));
 }
 
-fn fault_plans(dense: bool) -> Vec<tap::FaultPlan> {
+fn fault_plans(dense: bool, ks: usize) -> Vec<tap::FaultPlan> {
     let mut v = Vec::new();
     let nths: Vec<u64> = if dense { (1..=8).collect() } else { vec![1, 2, 3, 5] };
+    // a short write that stops exactly after the header + (empty) metadata part of a two-part record
+    let hdr_part = (57 + ks + 8) as u64;
+    for nth in nths.iter() {
+        v.push(tap::FaultPlan { op: "write".into(), kind: "blob".into(), nth: *nth, how: "short".into(), short: hdr_part });
+    }
     for (op, kinds, hows) in [("create", vec!["blob", "index"], vec!["enospc"]), ("write", vec!["blob", "index"], vec!["eio", "short"]),
                               ("write_at", vec!["index"], vec!["eio"]), ("sync", vec!["blob", "index"], vec!["eio"]), ("open", vec!["index"], vec!["eio"])] {
         for kind in kinds.iter() {
@@ -304,7 +311,7 @@ fn fault_main(cfg: HCfg, nkeys: u64, out_path: String) {
     let rec = tap::Recorder::new();
     rec.enabled.store(false, std::sync::atomic::Ordering::SeqCst);
     rec.install();
-    let plans = fault_plans(std::env::args().any(|a| a == "--dense"));
+    let plans = fault_plans(std::env::args().any(|a| a == "--dense"), cfg.ks);
     let root = scratch_root().join(format!("fault-{}", std::process::id()));
     let mut w = std::io::BufWriter::new(std::fs::File::create(&out_path).expect("trace file"));
     let stdin = std::io::stdin();
